@@ -50,6 +50,12 @@ def cases(rng, tier):
             lens[0] = L
         for f in ("sum", "mean", "counts", "np.sum"):
             out.append({"lens": lens, "f": f, "dtype": rng.choice(["int64", "bool", "int8", "float64", "uint16"]), "vseed": rng.randint(0, 9999), "mode": "small", "derived": None, "big": True})
+    # SCALE in the number of cells: more than 2**16 / 2**17 cells in many short rows (work done block by block must cover every cell)
+    for i in range(3 if tier == "quick" else 12):
+        nrows = rng.choice([25000, 30011, 40000])
+        lens = [rng.choice([0, 1, 2, 3, 5, 8]) for _ in range(nrows)]
+        out.append({"lens": lens, "f": ["sum", "mean", "np.sum", "counts"][i % 4], "dtype": rng.choice(["int32", "bool", "float64", "uint8", "int64"]), "vseed": rng.randint(0, 9999),
+                    "mode": "small", "derived": None, "big": True})
     return out
 
 
